@@ -1,0 +1,39 @@
+//go:build verif
+
+package requests
+
+import "time"
+
+// Accessors for the verification harness (/verif).  Compiled only with
+// the build tag "verif".
+
+// VerifAge makes every request look d older.
+func (rs *Requests) VerifAge(d time.Duration) {
+	age := func(t time.Time) time.Time {
+		if t.Equal(time.Time{}) {
+			return t
+		}
+		return t.Add(-d)
+	}
+	for i := range rs.queue {
+		rs.queue[i].qtime = age(rs.queue[i].qtime)
+	}
+	for i := range rs.requested {
+		rs.requested[i].qtime = age(rs.requested[i].qtime)
+		rs.requested[i].rtime = age(rs.requested[i].rtime)
+		rs.requested[i].ctime = age(rs.requested[i].ctime)
+	}
+}
+
+// VerifSnapshot returns the queued chunks, the requested chunks and, for
+// each of the latter, whether it has been cancelled.
+func (rs *Requests) VerifSnapshot() (queue, requested []uint32, cancelled []bool) {
+	for _, q := range rs.queue {
+		queue = append(queue, q.index)
+	}
+	for _, r := range rs.requested {
+		requested = append(requested, r.index)
+		cancelled = append(cancelled, r.Cancelled())
+	}
+	return
+}
